@@ -32,7 +32,7 @@ type Harness struct {
 	msgC     chan *common.MessagePublication
 	mu       sync.Mutex
 	Arrivals []Arrival
-	inReobs  bool
+	inReobs  atomic.Bool
 	ReobsN   map[ethcommon.Hash]int
 	cancel   context.CancelFunc
 	RunExits int32
@@ -56,9 +56,12 @@ func Start(sim *Sim, mode string, pollMs uint) *Harness {
 			case <-ctx.Done():
 				return
 			case m := <-h.msgC:
+				// read the path flag first: the re-observation handler cannot take the sentinel request (which
+				// ends the window) before this receive has completed
+				reobs := h.inReobs.Load()
 				_, n := sim.LogLen()
 				h.mu.Lock()
-				h.Arrivals = append(h.Arrivals, Arrival{Msg: m, LogN: n, Reobs: h.inReobs})
+				h.Arrivals = append(h.Arrivals, Arrival{Msg: m, LogN: n, Reobs: reobs})
 				h.mu.Unlock()
 			}
 		}
@@ -82,6 +85,13 @@ func Start(sim *Sim, mode string, pollMs uint) *Harness {
 func (h *Harness) Stop() {
 	h.cancel()
 	h.Sim.Close()
+}
+
+// ReobsCount is the number of re-observation requests sent for tx.
+func (h *Harness) ReobsCount(tx ethcommon.Hash) int {
+	h.mu.Lock()
+	defer h.mu.Unlock()
+	return h.ReobsN[tx]
 }
 
 func (h *Harness) arrivalCount() int {
@@ -143,14 +153,12 @@ func (h *Harness) Quiesce(n int, wd time.Duration) bool {
 // Reobserve sends a re-observation request and returns when it has been handled completely.
 func (h *Harness) Reobserve(tx ethcommon.Hash, wd time.Duration) bool {
 	h.mu.Lock()
-	h.inReobs = true
 	h.ReobsN[tx]++
 	h.mu.Unlock()
+	h.inReobs.Store(true)
 	defer func() {
-		time.Sleep(2 * time.Millisecond)
-		h.mu.Lock()
-		h.inReobs = false
-		h.mu.Unlock()
+		time.Sleep(5 * time.Millisecond)
+		h.inReobs.Store(false)
 	}()
 	send := func(r *gossipv1.ObservationRequest) bool {
 		select {
